@@ -141,6 +141,9 @@ class Drawing:
         self.added.append(obj)
         if isinstance(obj, ElmObj) and obj.cls not in ("Line", "Dot"):
             self.components_outside_draw_element += 1
+            if not getattr(self, "allow_components", False):
+                # judged where it happens (a generic loop iteration ends its path before the function returns)
+                ctx().check("components are added through draw_element only", z3.BoolVal(False), "call-pre")
         return obj
 
 
@@ -361,6 +364,7 @@ def target_to_drawing():
             has_custom = custom is not None and c.decide(z3.Bool(f"custom_label({t})"), "element has a custom label")
             real = unit_for(c, hide, custom, e, Rv(z3.Real("node_height")))
             d = Drawing()
+            d.allow_components = True
             ok, _ = no_raise("draw_element", lambda: real["draw_element"](e, d))
             if not ok:
                 return
@@ -765,6 +769,12 @@ def target_circuitikz():
         def judged_step(env, loc):
             if env.lid == ("phase_2", 1):
                 judge_key(env, loc)
+            elif env.lid[0] == "phase_2":
+                # a generic iteration of an inner loop ends its path here: what it wrote is judged here (the inner loops belong to
+                # the branch for a parallel connection, which may only draw wires)
+                c = ctx()
+                for ln in list(c.state["lines"]):
+                    c.check("phase_2: the inner loops (rails and connecting wires of a parallel connection) write wires only", z3.BoolVal(bool(WIRE.match(ln))), "post")
             return orig_step(env, loc)
         vc2.loop_step = judged_step
         WIRE = re.compile(r"^\\draw \([^()]*\) to\[short\] \([^()]*\);$")
